@@ -52,6 +52,7 @@ Inductive op :=
 | OSetLabel (r : axref) (i : Z) (l : label) (lk : kind)   (* a.axes[d][i] = label *)
 | OSetDims (ns : list string)                     (* a.dims = (...) *)
 | OIdentity                                       (* queries that only fill caches; Dataset insertion + extraction *)
+| OPercentile (qs : list Q) (scalar : bool) (kk : kind) (ax : axarg)   (* lib.stats.percentile(a, q or [q...], axis) *)
 .
 
 Definition dflt_arr : darr := Arr [] [] KF [CNaN] [].
@@ -121,6 +122,23 @@ Definition apply_op (ins : list darr) (o : op) (a : darr) : res value :=
       else if existsb (String.eqb "") ns then Err ValueError
       else Ok (VArr (mkarr (map (fun p => with_name (fst p) (snd p)) (combine (axes a) ns)) (vals a) (attrs a)))
   | OIdentity => Ok (VArr a)
+  | OPercentile qs scalar kk ax =>
+      match scalar, qs with
+      | true, [q] => reduce_any (RPct q) false ax a
+      | true, _ => Err TypeError
+      | false, _ =>
+          (* one reduction per percentile, stacked along a new first axis '<axis>_percentile' labelled by the percentiles *)
+          let! name := match ax with
+                       | AxOne r => let! i := axis_info a r in Ok (aname (nth i (axes a) dax0))
+                       | _ => Err TypeError end in
+          let! rs := mapM (fun q => let! v := reduce_any (RPct q) false ax a in
+                                    match v with
+                                    | VArr x => Ok (mkarr (axes x) (vals x) [])
+                                    | VCell c => Ok (mkarr [] (mk [] KF (fun _ => c)) [])
+                                    | _ => Err TypeError end) qs in
+          let! st := stack rs (Some (name ++ "_percentile")) kk (map LNum qs) false false in
+          Ok (VArr (mkarr (axes st) (vals st) (attrs a)))
+      end
   end.
 
 (* a program: ops applied in sequence to input 0; every intermediate result must be an array *)
